@@ -105,6 +105,13 @@ class VariedLayout(mr.Layout):
             if new != text:
                 self.applied.add('case')
             return new
+        if cls == 'raw' and text == '=' and sp.get('eqblanks'):
+            # blanks around the equals sign of keyword=value
+            k = self._next() % 4
+            new = ['=', ' = ', '= ', ' ='][k]
+            if new != text:
+                self.applied.add('blanks-around-equals')
+            return new
         if cls == 'num':
             fam = sp.get('num')
             scope = sp.get('num_scope') or 'all'
